@@ -2,5 +2,6 @@ SPECIFICATION Spec
 CONSTANTS
   Mrp = {m1, m2, m3}
   Atomic = TRUE
+  InspectorLoadsLock = FALSE
   InspectorCleansUp = TRUE
 INVARIANTS OneWriter HolderHasFile
